@@ -125,7 +125,15 @@ def run(ctx):
             scripts = batch_queries(behs)
             ctx.notes.append("%s: %d transitions of the bounded model, each executed after the shortest script reaching its source "
                              "state (%d scripts: the calls that change nothing are issued together)" % (cfg, len(behs), len(scripts)))
-            run_scripts(c, exe, scripts, cfg[:-4].lower(), nn)
+            tag = cfg[:-4].lower()
+            if len(scripts) > 20000:        # two validations side by side
+                halves = [(fork(c, "a"), scripts[0::2], tag + "a"), (fork(c, "b"), scripts[1::2], tag + "b")]
+                with cf.ThreadPoolExecutor(max_workers=2) as ex2:
+                    for f in [ex2.submit(run_scripts, cc, exe, part, t, nn) for cc, part, t in halves]:
+                        f.result()
+                join(c, [h[0] for h in halves])
+            else:
+                run_scripts(c, exe, scripts, tag, nn)
             return scripts[len(scripts) // 2]
         return job
 
@@ -137,7 +145,7 @@ def run(ctx):
         return deep[0][:8]
 
     def j_random(c):
-        nexec, nops = (1500, 40) if ctx.quick() else (20000, 60)
+        nexec, nops = (1200, 40) if ctx.quick() else (20000, 60)
         tr = c.tmp("random.ndjson")
         validate(c, exe, ["random", ctx.seed, nexec, nops, tr], tr, "random histories")
         return [json.loads(x) for x in vlib.read_lines(tr, 1, 3)]
@@ -145,7 +153,7 @@ def run(ctx):
     jobs = [("s3", j_trans("Gen_s3.cfg", 1)), ("n2", j_trans("Gen_n2.cfg", 2)), ("deep", j_deep), ("random", j_random)]
     subs = [fork(ctx, n) for n, _ in jobs]
     res, err = [], None
-    with cf.ThreadPoolExecutor(max_workers=max(2, min(4, vlib.NCPU))) as ex:
+    with cf.ThreadPoolExecutor(max_workers=4) as ex:
         futs = [ex.submit(f, c) for (n, f), c in zip(jobs, subs)]
         for f in futs:
             try:
